@@ -176,6 +176,16 @@ def rule_dfs(A: Analysis, rep):
             return n.kind == "stmt" and any(pn is n for (pn, _c) in w.pushes())
         check_w1(A, rep, "W1", "do_traversal", w, F[0], effect)
     rep.expect_min("DFS2", 5)
+    # DFS3: a run validates exactly the tasks it needs — nothing reachable from load_transitive_closure materialises
+    # tasks wholesale (a defect in a bystander task of the same COND file must not reject a valid request)
+    reach = A.cg.reachable(["conductor.parsing.task_index.TaskIndex.load_transitive_closure"])
+    bulk = sorted(fq.rsplit(".", 1)[-1] for fq in reach if fq.rsplit(".", 1)[-1] in ("load_all_tasks_in_cond_file", "load_all_known_tasks"))
+    rep.check(not bulk, "DFS3", "only needed tasks are materialised", ls.node, "whole-file / whole-project loading is not reachable from load_transitive_closure",
+              "load_transitive_closure reaches %s: every task of a visited COND file is validated, needed or not" % bulk)
+    mats = A.calls_in_func(ls, "TaskIndex._materialize_raw_task")
+    rep.check(len(mats) == 1 and mats[0].args and norm(mats[0].args[0]) == ls.params[1], "DFS3", "load_single_task materialises the requested task", ls.node, "",
+              "load_single_task materialises %s" % [norm(m.args[0]) if m.args else "?" for m in mats])
+    rep.expect_min("DFS3", 2)
 
 
 def rule_dup1(A: Analysis, rep):
